@@ -106,6 +106,47 @@ def _visit_assertion(ix, rep):
     # specification rule visits assertions in textual order: visitSpecification / visitChildren are generated -- C15 covers the grammar
 
 
+def _check_subspec_separator(ix, rep, rule='R-INLINE'):
+    from sa import grammar as G
+    lx = G.load(ix.root if hasattr(ix, 'root') else ix.repo)['LtlLexer']
+    line_tokens = []
+    for name, alts in lx.rules.items():
+        for alt in alts:
+            for e in alt.elems:
+                if e.kind == 'set' and e.value.startswith('~') and ('\\n' in e.value or '\n' in e.value) and e.repeated:
+                    line_tokens.append(name)
+    absast = ix.find_class('rtamt.syntax.ast.parser.abstract_ast_parser', 'AbstractAst')
+    f = absast.methods.get('add_sub_spec')
+    if f is None:
+        raise AnalysisError('AbstractAst.add_sub_spec vanished')
+    rep.analysed(f)
+    param = f.node.args.args[1].arg
+    # the value finally assigned to self.modular_spec: flatten the + chain, follow local reassignments of the parameter
+    target = None
+    for st in f.node.body:
+        if isinstance(st, ast.Assign) and ast.unparse(st.targets[0]) == 'self.modular_spec':
+            target = st
+    if target is None:
+        raise AnalysisError('%s: no assignment to self.modular_spec' % f.where)
+
+    def flat(e):
+        if isinstance(e, ast.BinOp) and isinstance(e.op, ast.Add):
+            return flat(e.left) + flat(e.right)
+        return [e]
+    parts = flat(target.value)
+    idx = [i for i, e in enumerate(parts) if isinstance(e, ast.Name) and e.id == param]
+    tail = parts[idx[-1] + 1:] if idx else []
+    sep = ''.join(e.value for e in tail if isinstance(e, ast.Constant) and isinstance(e.value, str))
+    ends_line = ('\n' in sep) or ('\r' in sep)
+    if not line_tokens:
+        rep.ok(rule, f.module.rel, f.qual, 'subspec-separator', 'the lexer has no token that runs to the end of the line', f.node.lineno)
+    elif idx and ends_line and all(isinstance(e, ast.Constant) for e in tail):
+        rep.ok(rule, f.module.rel, f.qual, 'subspec-separator', 'every sub-specification text is followed by a line terminator (tokens %s end there)' % sorted(set(line_tokens)), target.lineno)
+    else:
+        rep.fail(rule, f.module.rel, f.qual, 'subspec-separator', 'sub-specification texts are joined with %r: a text ending in a %s token (`// ...`) swallows every sub-specification and '
+                 'assertion registered after it, so the modular specification silently means something else than the inlined one' % (sep, '/'.join(sorted(set(line_tokens)))), target.lineno)
+
+
 def _pastifier_fresh(ix, rep):
     """pastifier handlers return newly built nodes (or the rewritten child), never the visited node itself"""
     nodes = set(c.name for c in D.node_classes(ix))
@@ -174,6 +215,9 @@ def check(ix, rep):
     else:
         rep.fail('R-INLINE', a[2].module.rel, a[2].qual, 'const-bound-unit', 'a bound given by a declared constant without suffix gets unit %s, a literal bound %s: replacing the constant by its '
                  'literal changes how the unit of the other bound is inherited' % (sorted(a[0]) or 'a computed value', sorted(b[0])), a[2].node.lineno)
+    # sub-specification texts are assembled into one text: each must end its own line, because the lexer has tokens (line comments)
+    # that run to the end of the line and would swallow the next sub-specification or the main assertion
+    _check_subspec_separator(ix, rep)
     # the pastifier rewrites every occurrence of a shared sub-specification for its own remaining look-ahead
     store.check_pastifier_remap(ix, rep)
     nf = _pastifier_fresh(ix, rep)
